@@ -209,8 +209,8 @@ PROPS['C19'] = {
 PROPS['C17'] = {
     'level': 'model_checking',
     'technique': 'exhaustive enumeration of all call-level interleavings of 2 (thorough: 3) managers on the real library against solo runs + library-global footprint invariant (PROT_NONE single-step monitor over the shared object\'s writable pages) that reduces every thread schedule to one of those interleavings + free-running thread-sanitizer pass',
-    'level_text': 'Step 1: for all 49 ordered variant pairs (incl. the same variant twice) and all 36 pairs of six-call histories (jobs completing at submit, jobs parked in out-of-order lanes, a rejected job, flush / get_completed / queue_size, direct-API calls), all C(12,6) = 924 interleavings are executed from the pristine manager images; every call must observe exactly what it observes in its manager\'s solo run (returned job, status, per-manager error code, all output bytes). Thorough adds three managers (sse_t3, avx2_t2, avx512_t2), 3-call prefixes, all 1680 interleavings x 216 history triples. Step 2: the library is linked as a shared object whose writable pages past RELRO are PROT_NONE during every library call of the solo runs, of a sweep over every algorithm row x direction x variant (job and burst API), of the direct API, the key helpers and init; a SIGSEGV + single-step handler logs every access. Invariant: only imb_errno (documented process-wide mirror), the session counter inside imb_set_session and the CPUID cache inside init are touched - so calls on distinct managers commute and every thread schedule is equivalent to an interleaving of step 1. Step 3 (props/c17t.c): the same histories on real threads (one manager per thread, 2..7 threads, all variants) under the thread sanitizer, library C files instrumented; any report other than on imb_errno fails; outputs must equal the solo outputs.',
-    'level_note': 'Histories are 6 calls from a fixed set of 6 programs. Assembly is invisible to the thread sanitizer; the footprint monitor (step 2) covers it. session_id values and the fall-back of imb_get_errno() to the process-wide mirror are documented as process-wide and not demanded.',
+    'level_text': 'Step 1: for all 49 ordered variant pairs (incl. the same variant twice) and all 100 pairs of ten six-call histories (jobs completing at submit, jobs parked in out-of-order lanes, a rejected job, flush / get_completed / queue_size, direct-API calls), all C(12,6) = 924 interleavings are executed from the pristine manager images; every call must observe exactly what it observes in its manager\'s solo run (returned job, status, per-manager error code, all output bytes). Thorough adds three managers (sse_t3, avx2_t2, avx512_t2), 3-call prefixes, all 1680 interleavings x 1000 history triples. Step 2: the library is linked as a shared object whose writable pages past RELRO are PROT_NONE during every library call of the solo runs, of a sweep over every algorithm row x direction x variant (job and burst API), of the direct API, the key helpers and init; a SIGSEGV + single-step handler logs every access. Invariant: only imb_errno (documented process-wide mirror), the session counter inside imb_set_session and the CPUID cache inside init are touched - so calls on distinct managers commute and every thread schedule is equivalent to an interleaving of step 1. Step 3 (props/c17t.c): the same histories on real threads (one manager per thread, 2..7 threads, all variants) under the thread sanitizer, library C files instrumented; any report other than on imb_errno fails; outputs must equal the solo outputs.',
+    'level_note': 'Histories are 6 calls from a fixed set of 10 programs. Assembly is invisible to the thread sanitizer; the footprint monitor (step 2) covers it. session_id values and the fall-back of imb_get_errno() to the process-wide mirror are documented as process-wide and not demanded.',
     'drivers': [{'name': 'c17', 'src': ['props/c17.c'] + ALG, 'cfgs': ['so'], 'args': ''},
                 {'name': 'c17t', 'src': ['props/c17t.c'] + ALG, 'cfgs': ['tsan'], 'args': ''}],
     'deadline': {'quick': 900, 'thorough': 3000},
